@@ -837,8 +837,8 @@ func stepOps(st *jstep) [][2]string {
 	case "snap":
 		op("DSnapBegin", 0)
 		op("DCommitReplace", 1)
-		op("DCommitClear", 2)
-		op("DCommitWalRemove", 3)
+		// the two halves below are not observable for an atomic WriteSnapshot (see DOpAny in Model/C02.v)
+		xs = append(xs, [2]string{"DCommitClear", "any"}, [2]string{"DCommitWalRemove", "any"})
 	}
 	return xs
 }
@@ -848,7 +848,11 @@ func caseTerm(c *jcase) string {
 	for i := range c.Steps {
 		st := &c.Steps[i]
 		for _, o := range stepOps(st) {
-			xs = append(xs, fmt.Sprintf("DOp (%s) %s", o[0], o[1]))
+			if o[1] == "any" {
+				xs = append(xs, fmt.Sprintf("DOpAny (%s)", o[0]))
+			} else {
+				xs = append(xs, fmt.Sprintf("DOp (%s) %s", o[0], o[1]))
+			}
 		}
 		switch st.Op {
 		case "write":
@@ -870,7 +874,11 @@ func caseTerm(c *jcase) string {
 				var ops []string
 				for j := range st.Sub {
 					for _, o := range stepOps(&st.Sub[j]) {
-						ops = append(ops, vh.Pair(o[0], o[1]))
+						if o[1] == "any" {
+							ops = append(ops, vh.Pair(o[0], "None"))
+						} else {
+							ops = append(ops, vh.Pair(o[0], "(Some "+o[1]+")"))
+						}
 					}
 				}
 				xs = append(xs, fmt.Sprintf("DBranch %s %s %s", vh.Bool(st.Torn), vh.List(ops), zzs(st.Images[0].Res)))
